@@ -114,6 +114,22 @@ impl DiameterClient {
         host.trim_start_matches('[').trim_end_matches(']')
     }
 
+    /// Attaches the client to an arbitrary stream, like the non-TLS branch of `connect`
+    /// (verification harness only).
+    #[cfg(feature = "verif-hooks")]
+    pub fn verif_attach_stream<S>(&mut self, stream: S) -> ClientHandler
+    where
+        S: AsyncRead + AsyncWrite + Send + Unpin + 'static,
+    {
+        let (reader, writer) = tokio::io::split(stream);
+        let writer = Arc::new(Mutex::new(writer));
+        self.writer = Some(writer);
+        ClientHandler {
+            reader: Box::new(reader),
+            msg_caches: Arc::clone(&self.msg_caches),
+        }
+    }
+
     /// Handles incoming Diameter messages.
     ///
     /// This method reads incoming messages from the server and processes them.
@@ -166,6 +182,8 @@ impl DiameterClient {
         let mut msg_caches = msg_caches.lock().await;
         msg_caches.closed = true;
         msg_caches.waiters.clear();
+        #[cfg(feature = "verif-hooks")]
+        crate::verif::emit(crate::verif::Event::ReaderStopped);
     }
 
     async fn process_decoded_msg(
@@ -179,8 +197,12 @@ impl DiameterClient {
 
             msg_caches.waiters.remove(&hop_by_hop)
         };
+        #[cfg(feature = "verif-hooks")]
+        crate::verif::emit(crate::verif::Event::Removed(hop_by_hop, sender_opt.is_some()));
         match sender_opt {
             Some(sender) => {
+                #[cfg(feature = "verif-hooks")]
+                crate::verif::emit(crate::verif::Event::Delivered(hop_by_hop, !sender.is_closed()));
                 sender.send(res).map_err(|e| {
                     Error::ClientError(format!("Failed to send response; error: {:?}", e))
                 })?;
@@ -210,9 +232,13 @@ impl DiameterClient {
             {
                 let mut msg_caches = self.msg_caches.lock().await;
                 if msg_caches.closed {
+                    #[cfg(feature = "verif-hooks")]
+                    crate::verif::emit(crate::verif::Event::SendRefused(hop_by_hop));
                     return Err(Error::ClientError("Connection closed".into()));
                 }
                 msg_caches.waiters.insert(hop_by_hop, tx);
+                #[cfg(feature = "verif-hooks")]
+                crate::verif::emit(crate::verif::Event::Registered(hop_by_hop));
             }
             let mut writer = writer.lock().await;
             Codec::encode(&mut writer.deref_mut(), &req).await?;
